@@ -157,6 +157,8 @@ def run_family(name, tier):
     rec = Recorder(fam, tier)
     buf = io.StringIO()
     t0 = time.time()
+    from . import solver as _solver
+    _solver.reset_cross_budget()
     try:
         with contextlib.redirect_stdout(buf):
             fam.fn(rec)
